@@ -29,6 +29,10 @@ TARGETS = {
 SITE_RX = "conn.go DTLS 1.3 receive path (prepareCiphertextPacket / openCiphertextRecord / protectedReplayMarker)"
 SITE_TX = "conn.go DTLS 1.3 send path (sealRecordContent / nextLocalSequenceNumber / commitLocalKeyUpdate)"
 SITE_PURE = "pkg/protocol/recordlayer header_13.go recordlayer_13.go / conn.go reconstructSequenceNumber"
+SITE_PLAIN = "conn.go prepareLegacyPacket / handleRecordContent (unprotected epoch-0 records after the DTLS 1.3 handshake)"
+SIG_ALERT = {"monitor": "unprotected-fatal-alert-closes-established-connection", "version": "1.3"}
+SIG_HS = {"monitor": "unprotected-post-handshake-message-answered-with-fatal-alert", "version": "1.3"}
+SIG_ACK = {"monitor": "unprotected-ack-commits-key-update", "version": "1.3"}
 
 _cache = {}
 
@@ -171,7 +175,7 @@ def run_pure(chk, prop):
         kinds[c["k"]] = kinds.get(c["k"], 0) + 1
     chk.count(leg, len(sel), [(c["k"], tuple(c["n"]), tuple(c["b"])) for c in sel],
               samples=[sel[0], sel[len(sel) // 2]] if sel else [])
-    chk.leg_info(leg, functions=kinds)
+    chk.leg_info(leg, **{"functions_" + prop: kinds})
 
 
 # ----------------------------------------------------------------- end-to-end receive leg
@@ -366,8 +370,7 @@ def run_e2e(chk, prop):
         if pa:
             ci, i = pa[0]
             c = cases[ci]
-            chk.finding(SITE_RX, {"monitor": "unprotected fatal alert closes an established DTLS 1.3 connection",
-                                  "version": "1.3"},
+            chk.finding(SITE_PLAIN, SIG_ALERT,
                         "an unprotected (epoch 0, legacy header) fatal alert injected after the handshake closes an "
                         "established DTLS 1.3 connection [%s]: datagram %s" % (c["variant"], c["steps"][i]["ops"][0]["hex"]),
                         {"how": "establish DTLS 1.3, then deliver the 15-byte datagram to either side",
@@ -396,3 +399,157 @@ def run_e2e(chk, prop):
     chk.cov["traces_validated_against_impl"] += len(cases)
     chk.leg_info(leg, variants=sorted({c["variant"] for c in cases}), step_kinds=tags, connections=len(cases),
                  scenarios=sorted({c["scen"].split("/")[0] for c in cases}))
+
+
+# ----------------------------------------------------------------- unprotected records after the handshake
+
+def run_plain(chk):
+    """forged epoch-0 alert / ACK / KeyUpdate records against an established DTLS 1.3 connection"""
+    out = vlib.out_path("rec13plain")
+    rc, o = vlib.go_test(".", "^TestVerifRec13Plain$", env(chk, out), tags=["rec13"], timeout=1200)
+    cases = vlib.read_jsonl(out)
+    vlib.cleanup(out)
+    leg = "rec13-unprotected"
+    if rc != 0:
+        chk.broken("harness TestVerifRec13Plain no longer runs against /repo (%s)" % vlib.classify_go_failure(o), o)
+        return
+    for c in cases:
+        if c["control"]:
+            if c["closed"] or c["alerts"] or c["uk_done"]:
+                chk.broken("rec13 control run (no forged datagram) is not clean", json.dumps(c))
+            continue
+        replay = {"how": "establish DTLS 1.3 (%s); deliver `datagram` to the %s (attack %s)" % (c["variant"], c["victim"], c["attack"]),
+                  "case": c}
+        if c["attack"] == "alert" and c["closed"]:
+            chk.finding(SITE_PLAIN, SIG_ALERT,
+                        "an unprotected epoch-0 fatal alert (%s) closes an established DTLS 1.3 %s [%s]" % (
+                            c["datagram"], c["victim"], c["variant"]), replay)
+        if c["attack"] == "keyupdate" and [2, 10] in c["alerts"]:
+            chk.finding(SITE_PLAIN, SIG_HS,
+                        "an unprotected epoch-0 handshake record carrying KeyUpdate (%s) makes the DTLS 1.3 %s answer its "
+                        "peer with a fatal unexpected_message alert [%s]" % (c["datagram"], c["victim"], c["variant"]), replay)
+        if c["attack"] == "ack" and (c["uk_done"] and c["uk_err"] == "ok" or c["epoch_after"] != c["epoch_before"]):
+            chk.finding(SITE_PLAIN, SIG_ACK,
+                        "a forged unprotected ACK commits the pending KeyUpdate of the DTLS 1.3 %s: UpdateKeys returned %s, "
+                        "sending epoch %d -> %d, the peer read %d payload(s) afterwards [%s]" % (
+                            c["victim"], c["uk_err"], c["epoch_before"], c["epoch_after"], c["peer_read"], c["variant"]), replay)
+    attacks = [c for c in cases if not c["control"]]
+    chk.count(leg, len(cases), [(c["variant"], c["attack"], c["victim"]) for c in attacks],
+              samples=[{k: c[k] for k in ("attack", "victim", "variant", "datagram", "closed", "alerts", "uk_done")} for c in attacks[:3]])
+    chk.leg_info(leg, attacks=sorted({c["attack"] for c in cases}), variants=sorted({c["variant"] for c in cases}))
+
+
+# ----------------------------------------------------------------- send side
+
+def monitor_c09(c):
+    """(index, text) or None: record-number uniqueness / monotonicity / header form on one sender's emissions"""
+    seen, last = {}, {}
+    for i, r in enumerate(c["recs"]):
+        k = (r["e"], r["q"])
+        if k in seen:
+            return i, "record number (epoch %d, seq %d) emitted twice (records %d and %d)" % (r["e"], r["q"], seen[k], i)
+        seen[k] = i
+        if r["e"] in last and r["q"] <= last[r["e"]]:
+            return i, "record numbers of epoch %d not increasing in emission order (%d after %d)" % (r["e"], r["q"], last[r["e"]])
+        last[r["e"]] = r["q"]
+        if r["q"] > 2 ** 48 - 1:
+            return i, "record number above 2^48-1"
+        if not r["plain"] and not (r["s16"] and r["l"] and r["c"] == c["use_cid"]):
+            return i, "unexpected unified-header form (S=%s L=%s C=%s)" % (r["s16"], r["l"], r["c"])
+    if c["unopenable"]:
+        return len(c["recs"]), "%d emitted record(s) cannot be opened with the sender's own write keys" % c["unopenable"]
+    return None
+
+
+def send_term(c):
+    ops, obs, inst = [], [], set()
+    for r in c["recs"]:
+        if r["plain"]:
+            continue
+        if r["e"] not in inst:
+            inst.add(r["e"])
+            ops.append("SInstallWrite %d" % r["e"])
+        ops.append("SWriteAt %d %d [0]" % (r["e"], r["type"] if r["type"] > 0 else 23))
+        obs.append("(%d, %d)" % (r["e"], r["q"]))
+    return "(%s, %s)" % (clist(ops), clist(obs))
+
+
+def run_send(chk):
+    out = vlib.out_path("rec13send")
+    rc, o = vlib.go_test(".", "^TestVerifRec13Send$", env(chk, out), tags=["rec13"], timeout=2400)
+    cases = vlib.read_jsonl(out)
+    vlib.cleanup(out)
+    leg = "rec13-send"
+    found = False
+    if rc != 0:
+        kind = vlib.classify_go_failure(o)
+        if kind == "panic":
+            found = True
+            chk.finding(SITE_TX, {"monitor": "panic"}, "panic on the DTLS 1.3 send path", {"output": o[-4000:]})
+        else:
+            chk.broken("harness TestVerifRec13Send no longer runs against /repo (%s)" % kind, o)
+            return
+    for c in cases:
+        m = monitor_c09(c)
+        if m:
+            found = True
+            i, text = m
+            chk.finding(SITE_TX, {"monitor": text.split(" (")[0], "version": "1.3"},
+                        "%s [DTLS 1.3 %s, %s, %s]" % (text, c["variant"], c["side"], c["scen"]),
+                        {"how": "run the session (seed, scenario), open every datagram `side` wrote with its own write secrets",
+                         "case": {k: v for k, v in c.items() if k != "recs"}, "records": c["recs"][max(0, i - 5):i + 1]})
+            break
+    terms = [send_term(c) for c in cases]
+    bad, err = vlib.coq_mismatches("rec13s", IMPORTS, "send_case", "send_ok", terms, shard=8)
+    if bad is None:
+        chk.broken("rec13 send-side correspondence evaluation failed in coqc", err)
+    else:
+        for i in bad[:1]:
+            c = cases[i]
+            chk.finding(SITE_TX, {"monitor": "model-mismatch", "variant": c["variant"], "version": "1.3"},
+                        "record numbers on the wire differ from the allocation model Rec/Rec13.v send_record "
+                        "[DTLS 1.3 %s, %s]" % (c["variant"], c["side"]),
+                        {"case": c, "correspondence": "Rec.Rec13Run.send_ok"}, no_input=(monitor_c09(c) is None and not found))
+    nrec = sum(len(c["recs"]) for c in cases)
+    epochs = sorted({r["e"] for c in cases for r in c["recs"]})
+    chk.count(leg, nrec, [(c["variant"], c["side"], c["scen"]) for c in cases if len({r["e"] for r in c["recs"]}) > 2],
+              samples=[{"variant": c["variant"], "side": c["side"], "scen": c["scen"], "records": len(c["recs"]),
+                        "epochs": sorted({r["e"] for r in c["recs"]})} for c in cases[:3]])
+    chk.cov["traces_validated_against_impl"] += len(cases)
+    chk.leg_info(leg, sessions=len(cases) // 2, records=nrec, epochs_seen=epochs, variants=sorted({c["variant"] for c in cases}))
+
+
+# ----------------------------------------------------------------- entry points
+
+ASSUME_AEAD = ("rec13/int_ctxt: the AEAD of a DTLS 1.3 generation opens only (record number, additional data, ciphertext) "
+               "tuples sealed under that generation (premise `ideal` of the C05rec13 theorems); the record-number mask "
+               "function is unconstrained")
+
+
+def run_c05(chk, prove_it=True):
+    if prove_it:
+        prove(chk, "C05")
+    run_pure(chk, "C05")
+    run_e2e(chk, "C05")
+    run_plain(chk)
+    chk.assumptions.append(ASSUME_AEAD)
+    chk.assumptions.append("rec13: the reassembly buffer's capacity decision (C12) is a parameter of the receive model; "
+                           "what the handshake layer does with accepted handshake/ACK records is C20's model")
+
+
+def run_c06(chk, prove_it=True):
+    if prove_it:
+        prove(chk, "C06")
+    run_pure(chk, "C06")
+    run_e2e(chk, "C06")
+    chk.assumptions.append("rec13: AEAD correctness (open(seal x) = x) and output length are premises of the "
+                           "C06_13_genuine_* theorems; uint64 record numbers below 2^63")
+
+
+def run_c09(chk, prove_it=True):
+    if prove_it:
+        prove(chk, "C09")
+    run_pure(chk, "C09")
+    run_send(chk)
+    chk.assumptions.append("rec13: distinct generations have distinct AEAD keys (premise of C09_13_key_nonce_unique); "
+                           "fewer than 2^64 emission attempts")
